@@ -98,6 +98,16 @@ def corpus():
     out.append(_case('type Query { a: Int @deprecated(reason: null) b: Int @deprecated c: Int @deprecated(reason: "") '
                      'd: Int @deprecated(reason: "x") @deprecated(reason: "y") }', "valid"))
     out.append(_case("schema { query: Query }\ntype Query { a: Int }\ntype Mutation { b: Int }", "valid"))
+    # seeded C11-i: a root operation the base does not define may be given by ONE extension only
+    _b = "schema { query: Query }\ntype Query { a: Int }\ntype M1 { b: Int }\ntype M2 { c: Int }\n"
+    out.append(_case(_b + "extend schema { mutation: M1 }\nextend schema { mutation: M2 }", "ext-dup-new-operation", expect=2))
+    out.append(_case(_b + "extend schema { mutation: M1 }\nextend schema { mutation: M1 }", "ext-dup-new-operation", expect=2))
+    out.append(_case("extend schema { subscription: M2 }\n" + _b + "extend schema { subscription: M1 }",
+                     "ext-dup-new-operation", expect=2))
+    out.append(_case(_b + "extend schema { mutation: M1 }\nextend schema { subscription: M1 }\n"
+                     "extend schema { subscription: M2 }", "ext-dup-new-operation", expect=2))
+    out.append(_case(_b + "extend schema {\n  mutation: M1\n  mutation: M2\n}", "ext-dup-new-operation", expect=2))
+    out.append(_case(_b + "extend schema { mutation: M1 }\nextend schema { subscription: M2 }", "valid"))
     # seeded C11-h: implementing fields anywhere in the covariance lattice of the interface field's type --
     # [T]! / [T!]! / [T!] for [T], [[T]!] for [[T]], T! for T, object-for-interface and member-for-union inside
     # the wrappers; direct, through `extend type ... implements`, any definition order
